@@ -250,7 +250,7 @@ E0 == [ev |-> "", round |-> 0, mode |-> "", kind |-> "",
        fresh |-> 0, keyid |-> 0, xhdr |-> 0, wf |-> 0,
        status |-> 0, rupg |-> "", racc |-> "", complete |-> 0, feat |-> "", nsent |-> 0,
        err |-> "", state |-> "", cbs |-> 0, pending |-> 0,
-       n |-> 0, match |-> 0, ndeliv |-> 0, cbytes |-> 0]
+       n |-> 0, match |-> 0, ndeliv |-> 0, cbytes |-> 0, probe |-> ""]
 
 Ev(name, q, r) == [E0 EXCEPT !.ev = name, !.round = r, !.mode = q.mode, !.kind = q.kind]
 
@@ -385,7 +385,9 @@ EndRound ==
          stop == acc /\ p.tail # "none" /\ ndel = NFrames(p)
      IN /\ st' = IF acc /\ ~stop THEN "state_terminated" ELSE st
         /\ Emit([Ev("End", p, round) EXCEPT !.ndeliv = ndel, !.err = IF ~acc THEN "" ELSE IF stop THEN "stopped" ELSE "eof",
-                   !.state = st', !.cbytes = IF stale THEN 1 ELSE 0])
+                   !.state = st', !.cbytes = IF stale THEN 1 ELSE 0,
+                   \* a terminated stream refuses NextFrame (EOF), Write (cancelled), Close (EOF)
+                   !.probe = IF acc THEN "" ELSE "ok"])
   /\ phase' = "idle" /\ p' = NoP
   /\ wsent' = 0 /\ wclosed' = FALSE /\ crd' = 0 /\ rdone' = FALSE /\ rerr' = ""
   /\ ndel' = 0 /\ flushed' = FALSE /\ stale' = FALSE
